@@ -11,7 +11,7 @@ ref('Emitter')
 union('EventVal', ['Ret', 'list[Ret]'])
 record('Procedure', {'_Procedure__stacks': 'list[list[Ret]]', '_Procedure__verbose': 'bool', '_Procedure__emitter': 'Emitter'}, source=(PROC, 'Procedure'))
 
-external('keys', [('n', 'Node')], 'list[str]', note='Node.prop_keys(): the declared expandable properties, fixed per class (closed check: no duplicates)')
+external('keys', [('n', 'Node')], 'list[str]', axioms=[({'n': 'Node', 'a': 'int', 'b': 'int'}, 'implies(0 <= a and a < b and b < len(keys(n)), keys(n)[a] != keys(n)[b])')], note='Node.prop_keys(): the declared expandable properties, fixed per class (closed check: no duplicates)')
 external('rev', [('xs', 'list[str]')], 'list[str]', axioms=[
 	({'xs': 'list[str]'}, 'len(rev(xs)) == len(xs)'),
 	({'xs': 'list[str]', 'i': 'int'}, 'implies(0 <= i and i < len(xs), rev(xs)[i] == xs[len(xs) - 1 - i])'),
@@ -44,3 +44,10 @@ def need(n: Node, j: int) -> int:
 def distinct_keys(n: Node) -> bool:
 	"""prop_keys() has no duplicate (closed fact of the node class table, checked by evaluation on every run)."""
 	return all(all(implies(a != b, keys(n)[a] != keys(n)[b]) for b in range(len(keys(n)))) for a in range(len(keys(n))))
+
+
+external('Node.classification', [('n', 'Node')], 'str', note='Node.classification')
+external('Emitter.usable', [('e', 'Emitter'), ('name', 'str')], 'bool', note='Middleware.usable(handler name)')
+external('exc_arg0_not_node', [('e', 'Emitter')], 'bool', note='`len(e.args) > 0 and not isinstance(e.args[0], Node)` on the caught application error (uninterpreted)')
+external('flat', [('n', 'Node')], 'list[Node]', note='Node.procedural(): post-order flattening of the subtree (validated by the bounded monitor; a NodeNotFound / IllegalConvertion from a broken tree is an Errors.Error)',
+	raises={'Errors.Error': None})
